@@ -428,6 +428,19 @@ def run(ctx):
         # string length: the reader's buffer slice is bounded by the 12-bit length
         ctx.ob("W3", "string types both handled", all(k in rtab for k in ("FSM_PROTOCOL_TYPE_STRING_LENGTH_4BIT", "FSM_PROTOCOL_TYPE_STRING_LENGTH_12BIT")), rt.where,
                "reader arms for both string length types")
+        # the writer sends the UTF-8 bytes of the string (`as_bytes`): both string arms of the reader decode the bytes as UTF-8
+        # (from_utf8 on the buffer slice) and none turns single bytes into characters
+        for m in rt.nodes("match"):
+            for a in m["arms"]:
+                key = wire.arm_key(a["pat"])
+                if not key.startswith("FSM_PROTOCOL_TYPE_STRING_"):
+                    continue
+                dec = [c for c in hirq.walk(a["body"]) if c.get("k") == "call" and (c.get("p") or "").endswith("from_utf8")]
+                bytewise = [c for c in hirq.walk(a["body"]) if c.get("k") == "cast" and c.get("ty") == "char"]
+                ctx.ob("W3", "%s|bytes decoded as UTF-8" % key, len(dec) == 1 and not bytewise, line_of(a["body"]),
+                       "%d from_utf8 call(s), %d byte-to-char cast(s)" % (len(dec), len(bytewise)))
+        wsb = [c for c in ws.walk() if c.get("k") == "mcall" and c["m"] == "as_bytes"]
+        ctx.floor("W3", "write_str sends as_bytes()", len(wsb), 1)
     ctx.guard("W3", w34)
 
     def w3_option():
